@@ -196,7 +196,7 @@ def run(ctx):
             ctx.ob("C18.H.every-variant-checked", f.key, "one handle(check(variant)) per variant, finish()", ok, "enum arm")
             ok = "struct_check . check ( struct_data )" in body
             ctx.ob("C18.H.struct-checked", f.key, "struct_check.check(struct_data)", ok, "struct arm")
-            ok = bool(re.search(r"let struct_check = ⟨&darling_core::options::shape::DataShape⟩ ; let enum_check = ⟨&darling_core::options::shape::DataShape⟩ ;", body))
+            ok = bool(re.search(r"let struct_check = ⟨darling_core::options::shape::DataShape⟩ ; let enum_check = ⟨darling_core::options::shape::DataShape⟩ ;", body))
             ctx.ob("C18.H.check-sets", f.key, "struct_check = #st; enum_check = #en", ok, "bindings")
             un = re.search(r"Data :: Union \( _ \) => (.*?) , \}", body)
             ok = bool(un) and ("Err" in un.group(1)) and "unreachable" not in un.group(1)
@@ -245,7 +245,7 @@ def run(ctx):
                 pass
             Tc = tpl.Templates(c)
             for s in Tc.root_streams():
-                if Tc.text(s) == "__errors . handle ( ⟨&darling_core::options::shape::DataShape⟩ . check ( & ⟨proc_macro2::TokenStream⟩ . fields ) ) ;":
+                if Tc.text(s) == "__errors . handle ( ⟨darling_core::options::shape::DataShape⟩ . check ( & ⟨proc_macro2::TokenStream⟩ . fields ) ) ;":
                     ok = True
         ctx.ob("C18.H.variant-level-supports", f.key, "__errors.handle(#shape.check(&#input.fields))", ok, "variant-level supports template")
     return ctx.finish(
